@@ -98,6 +98,8 @@ def groups(tier, seed):
         gs.append({"name": "softplus-%d" % s, "fam": "softplus", "n": 2, "part": "B", "shard": s, "nshards": 2})
     for k in range(12):
         gs.append({"name": "projections-%02d" % k, "fam": "proj", "n": 0, "shard": k, "nshards": 12})
+    w = {"rosenbrock": 0, "barrier": 1, "softplus": 1, "proj": 2}
+    gs.sort(key=lambda g: (w.get(g["fam"], 3 if g.get("part") == "B" else 4), g["name"]))     # heaviest first
     return gs
 
 
